@@ -92,8 +92,7 @@ def run(tier, replay=None):
         chk.sample({"id": keep[-1]['id'], "verdict": verd[len(keep) - 1]})
         chk.assumptions += ["labels are unique per program (duplicates are C10's business)",
                             "AsmRelax transfers to the code only through the conformance samples (radix 16 is not model-checked)"]
-        if ok < 500:
-            raise vlib.MachineryError("vacuity: too few programs validated")
+        chk.vacuity(ok < 500, "too few programs validated")
     finally:
         shutil.rmtree(d, ignore_errors=True)
     return chk.finish()
